@@ -10,7 +10,7 @@ import itertools, json, math
 
 ID = "C15"
 LEVEL = "model_checking"
-RULE = ("A: all expression trees with <= N operator nodes (N=2 over the full alphabet: binary + - * / ** in both operand "
+RULE = ("E: 4 sub-expressions x 5 extensions by a new variable x 4 registration orders (the sub-expression used as a constraint after it was extended).  A: all expression trees with <= N operator nodes (N=2 over the full alphabet: binary + - * / ** in both operand "
         "orders incl. reflected forms with Python numbers, unary neg abs sign exp log sin cos tan asin acos atan, leaves x y p "
         "and constants 0 1 2 -1.5 0.5; N=3 over a reduced alphabet; thorough N=3 over a larger and N=4 over a reduced alphabet), "
         "each evaluated on the grid {-2,-0.5,0,0.5,1,3}^2 intersected with the reference's domain of definition; B: conditional "
@@ -763,7 +763,92 @@ def expand(hh):
 
 
 # ------------------------------------------------------------------------------------------------ entry points
+# ------------------------------------------------------------------------------------------------ part E: extended sub-expressions
+EXT_E = {"xy": (lambda X, Y, P: X * Y, lambda x, y, p: (x * y, y, x)),
+         "xy+p": (lambda X, Y, P: X * Y + P, lambda x, y, p: (x * y + p, y, x)),
+         "sinx+y": (lambda X, Y, P: __import__("wntr.sim.aml.expr", fromlist=["sin"]).sin(X) + Y, lambda x, y, p: (math.sin(x) + y, math.cos(x), 1.0)),
+         "x2": (lambda X, Y, P: X ** 2, lambda x, y, p: (x * x, 2 * x, 0.0))}
+EXT_OP = {"+z": (lambda e, Z: e + Z, lambda u, z: (u + z, 1.0, 1.0)), "*z": (lambda e, Z: e * Z, lambda u, z: (u * z, z, u)),
+          "-z": (lambda e, Z: e - Z, lambda u, z: (u - z, 1.0, -1.0)), "z*": (lambda e, Z: Z * e, lambda u, z: (u * z, z, u)),
+          "**2+z": (lambda e, Z: e ** 2 + Z, lambda u, z: (u * u + z, 2 * u, 1.0))}
+EXT_ORDERS = ["big,e", "e,big", "e-only", "cond-e-only"]
+EXT_POINTS = [(0.5, 0.25, 1.7, 1.5), (2.0, -1.5, 0.3, 1.5), (1.2, 0.8, -2.0, -0.5)]
+
+
+def ext_cases(tier):
+    return [{"part": "E", "e": a, "op": b, "order": o} for a in EXT_E for b in EXT_OP for o in EXT_ORDERS]
+
+
+def run_ext(c):
+    """a sub-expression e is FIRST extended by an operation that brings in a new variable z (big = e op z) and only then used
+    as a constraint body itself (before / after / without big being registered, or as the branch of a conditional)."""
+    from wntr.sim.aml import aml, expr as E
+    viol = []
+    tag = "extended:%s:%s" % (c["order"], c["op"])
+
+    def bad(k, w):
+        viol.append({"key": "%s:%s" % (tag, k), "what": "e=%s, big=e%s, order %s: %s" % (c["e"], c["op"], c["order"], w)})
+    try:
+        m = aml.Model()
+        X, Y, Z, P = aml.Var(0.5), aml.Var(0.25), aml.Var(1.7), aml.Param(1.5)
+        m.x, m.y, m.p = X, Y, P
+        e = EXT_E[c["e"]][0](X, Y, P)
+        big = EXT_OP[c["op"]][0](e, Z)          # built before e is registered anywhere
+        cons = {}
+        if c["order"] in ("big,e", "e,big"):
+            m.z = Z
+            names = ["big", "e"] if c["order"] == "big,e" else ["e", "big"]
+            for nm in names:
+                cons[nm] = aml.Constraint(big if nm == "big" else e)
+                setattr(m, "c_" + nm, cons[nm])
+            m.c_pad = aml.Constraint(X + 2.0 * Y + 3.0 * Z - 1.0)
+            nvars = 3
+        else:
+            if c["order"] == "e-only":
+                cons["e"] = aml.Constraint(e)
+            else:
+                ce = E.ConditionalExpression()
+                ce.add_condition(E.inequality(body=X, ub=1.0), e)
+                ce.add_final_expr(e + 1.0)
+                cons["e"] = aml.Constraint(ce)
+            m.c_e = cons["e"]
+            m.c_pad = aml.Constraint(X - 2.0 * Y)
+            nvars = 2
+        m.set_structure()
+        if len(list(m.vars())) != nvars:
+            bad("variables", "the model holds %d variables, %d appear in its constraints" % (len(list(m.vars())), nvars))
+            return {"viol": viol, "nontrivial": True, "outcome": "ext"}
+        for x, y, z, p in EXT_POINTS:
+            X.value, Y.value, Z.value, P.value = x, y, z, p
+            r = m.evaluate_residuals()
+            J = m.evaluate_jacobian().toarray()
+            u, ux, uy = EXT_E[c["e"]][1](x, y, p)
+            if c["order"] == "cond-e-only" and x > 1.0:
+                u += 1.0
+            b, bu, bz = EXT_OP[c["op"]][1](u, z)
+            for nm, (v, dx, dy, dz) in (("e", (u, ux, uy, 0.0)), ("big", (b, bu * ux, bu * uy, bz))):
+                if nm not in cons:
+                    continue
+                row = cons[nm].index
+                if abs(r[row] - v) > 1e-9 * max(1.0, abs(v)):
+                    bad("residual", "%s at (x,y,z,p)=%s: compiled residual %.12g, true value %.12g" % (nm, (x, y, z, p), r[row], v)); break
+                for var, d, vn in ((X, dx, "x"), (Y, dy, "y"), (Z, dz, "z")):
+                    if var.index is None:
+                        continue
+                    if abs(J[row, var.index] - d) > 1e-9 * max(1.0, abs(d)):
+                        bad("jacobian", "d(%s)/d%s at %s: compiled %.12g, true %.12g" % (nm, vn, (x, y, z, p), J[row, var.index], d)); break
+            if viol:
+                break
+    except Exception as ex:  # noqa
+        import traceback
+        viol.append({"key": "%s:raises:%s" % (tag, type(ex).__name__), "what": "e=%s, big=e%s, order %s: %s: %s" % (c["e"], c["op"], c["order"], type(ex).__name__, str(ex)[:120]),
+                     "detail": traceback.format_exc()[-1200:]})
+    return {"viol": viol[:2], "nontrivial": True, "outcome": "ext:%s" % c["order"], "counts": {"extended_models": 1}}
+
+
 def run_case(s):
+    if s.get("part") == "E":
+        return run_ext(s)
     if s.get("part") == "A":
         return check_batch([tuple_(t) for t in s["trees"]])
     if s.get("part") == "B":
@@ -814,6 +899,18 @@ def run(run_, tier, seed):
             run_.count("B:" + k, n)
         for v in r.get("viol") or []:
             run_.violation(v["key"], v["what"], s, v.get("detail"))
+    # ---- part E
+    especs = ext_cases(tier)
+    eres = pool.run_cases(run_case, especs, seed=seed)
+    for s, r in zip(especs, eres):
+        run_.evaluations += 1
+        o = r.get("outcome")
+        if o:
+            run_.outcomes["E:" + o] = run_.outcomes.get("E:" + o, 0) + 1
+        for k, n in (r.get("counts") or {}).items():
+            run_.count("E:" + k, n)
+        for v in r.get("viol") or []:
+            run_.violation(v["key"], v["what"], s, v.get("detail"))
     # ---- part C
     nt_before = len(run_.nontrivial)
     bfs.search(run_, mod, ["empty"], {"quick": 4, "thorough": 6}[tier], seed=seed)
@@ -823,5 +920,6 @@ def run(run_, tier, seed):
     run_.extra["conditional_cases_multi_branch"] = nb
     run_.extra["history_nontrivial_states"] = len(run_.nontrivial) - nt_before
     run_.extra["distinct_nontrivial_note"] = "expression trees judged + multi-branch conditional cases + non-trivial history transitions"
-    run_.nontrivial_extra = ntrees + nb
+    run_.extra["extended_subexpression_cases"] = len(especs)
+    run_.nontrivial_extra = ntrees + nb + len(especs)
     run_.samples = a_samples + [cspecs[len(cspecs) // 2]] + run_.samples[:3]
